@@ -205,6 +205,21 @@ CHECKS = {
        "of call_soon_threadsafe / asyncio.Queue / queue.Queue is assumed (the real objects are used in the runs).",
   tech="Lean 4 proof (inductive invariant over a producer/consumer LTS, all interleavings) + trace refinement "
        "check under a deterministic scheduler", ref="§5 C16"),
+ "C17": dict(
+  text="Lean theorems about an LTS of ensure_aw / run_aw_threadsafe / loop_in_thread / _get_loop_lock (any number of "
+       "callers and helper threads on one target loop; double-checked lock creation, loop lock, three-way dispatch, "
+       "awaitables that progress only while some thread runs the target): C17_one_runner (never two threads inside "
+       "run_* of the loop, every interleaving), C17_lock_unique, C17_on_target, C17_transparent, C17_closed_raises, "
+       "C17_stopped_before_return, C17_completes_partial, and C17_counterexample_borrowed_loop_stops (a `decide`d "
+       "model trace in which a second caller proxies onto a borrowed loop that then stops: the full completion "
+       "clause is false of the code, finding F7). Tie: 2..3 real caller threads with their own loops + the pool "
+       "threads run under the baton scheduler with cooperative pool / locks / lock table / spin; the label trace "
+       "must be accepted by the model; monitor: result and exception identity, loop identity inside the awaitable, "
+       "runner count, loop_in_thread handshake, hang detector",
+  note=NOTE_COMMON + "Known finding F7 (known_findings.json, signature hang / threadsafe-proxy / "
+       "borrowed-by-run_until_complete). Partial: completion is proved only for a target that keeps running.",
+  tech="Lean 4 proof (inductive invariant over an LTS, all interleavings; decide counter-example) + trace "
+       "refinement check under a deterministic scheduler + hang detector", ref="§5 C17"),
 }
 
 def main():
